@@ -183,6 +183,10 @@ def OldGroup (A : Arith) (T : Int) (grp : List Page) (g : SG) : Prop :=
   ∃ p run, grp = p :: run ∧ p.seen < T ∧ Contig A (A.add p.seq p.bytes.length) run ∧
     g.new = (grp.map (fun q => q.bytes)).flatten
 
+/-- `g` hands over a block `grp` of the queue `q` that is an old group -/
+def GroupIn (A : Arith) (T : Int) (q : List Page) (g : SG) : Prop :=
+  ∃ pre grp post, q = pre ++ grp ++ post ∧ OldGroup A T grp g
+
 /-- the first queued page (the one a flush looks at) was not seen before `T` -/
 def HeadNotOld (T : Int) : List Page → Prop
   | [] => True
